@@ -279,9 +279,9 @@ impl Network {
                 .find_peer_by_index_mut(peer_index)
                 .expect("peer should exist here since it was accessed previously");
             peer.join_as_reconnection(old_peer);
-        } else {
-            peers.address_to_peers.insert(public_key, peer_index);
         }
+        // (the entry of the key went away with the old peer on a reconnection: the new connection takes it)
+        peers.address_to_peers.insert(public_key, peer_index);
 
         for (index, peer) in &peers.index_to_peers {
             if peer.public_key.is_none() {
